@@ -171,6 +171,13 @@ def build_codec(pool='a'):
     return [bins[u[0]] for u in units]
 
 
+def build_util():
+    units = [('util', [])]
+    flags = SAN_FLAGS + ['-fno-sanitize=shift-base']
+    bins = build_binaries('util', [os.path.join(HARNESS, 'util_main.cpp')], units, flags=flags)
+    return bins['util']
+
+
 def run_proc(cmd, stdin_data=None, timeout=3600, env_extra=None):
     env = dict(os.environ)
     env.update(SAN_ENV)
